@@ -112,12 +112,55 @@ def poly_nonneg(e):
     return all(c >= 0 for c, _ in poly_terms(e))
 
 
+def _expand(e, depth=0):
+    """e as a fraction (num, den) of polynomials over the input variables: quotient variables are replaced by their
+    definitions (recursively); sums over a common denominator keep it"""
+    if depth > 6:
+        return e, _ONE
+    if z3.is_rational_value(e) or z3.is_int_value(e):
+        return e, _ONE
+    if z3.is_const(e) and e.decl().kind() == z3.Z3_OP_UNINTERPRETED:
+        df = definition(e)
+        if df is None:
+            return e, _ONE
+        n1, d1 = _expand(df[0], depth + 1)
+        n2, d2 = _expand(df[1], depth + 1)
+        return n1 * d2, d1 * n2
+    k = e.decl().kind()
+    if k == z3.Z3_OP_ADD:
+        parts = [_expand(c, depth) for c in e.children()]
+        d0 = parts[0][1]
+        if all(p_[1].eq(d0) or _poly_zero(p_[1] - d0) for p_ in parts):
+            return sum(p_[0] for p_ in parts), d0
+        num, den = parts[0]
+        for n_, d_ in parts[1:]:
+            num, den = num * d_ + n_ * den, den * d_
+        return num, den
+    if k == z3.Z3_OP_MUL:
+        num, den = _ONE, _ONE
+        for c in e.children():
+            n_, d_ = _expand(c, depth)
+            num, den = num * n_, den * d_
+        return num, den
+    if k == z3.Z3_OP_TO_REAL:
+        return _expand(e.arg(0), depth)
+    return e, _ONE
+
+
 def quotient(n, d):
     """z3 Real standing for n / d (d > 0 syntactically required)"""
     if not is_pos(d):
         raise NotImplementedError('division by a log-weight that is not known to be positive')
     p = core.cur()
     table = p.notes.setdefault('fracs', [])
+    if table:
+        # express both over the input variables, so that e.g. (w_c / m) / sum_j (w_j / m) is recognised as w_c / sum_j w_j
+        (nn, nd), (dn, dd) = _expand(n), _expand(d)
+        if not (nd.eq(_ONE) and dd.eq(_ONE)):
+            if nd.eq(dd) or _poly_zero(nd - dd):
+                n, d = z3.simplify(nn), z3.simplify(dn)
+            else:
+                n, d = z3.simplify(nn * dd), z3.simplify(nd * dn)
     for (n0, d0, q0) in table:
         if (n0.eq(n) and d0.eq(d)) or _poly_zero(n * d0 - n0 * d):
             return q0
